@@ -12,9 +12,10 @@ NAME=$(basename $DEMO .rs)
 LIB=$(cargo test --offline --lib 2>&1 | grep -E "^test result" | head -1)
 DOC=$(cargo test --offline --doc 2>&1 | grep -E "^test result" | tail -1)
 WITH=$(cargo test --offline --test $NAME 2>&1 | grep -E "^test result" | head -1)
-git stash push -q -- src
+# (git stash is shared between worktrees: revert and re-apply the saved diff instead)
+git apply -R patch.diff
 WITHOUT=$(cargo test --offline --test $NAME 2>&1 | grep -E "^test result" | head -1)
-git stash pop -q
+git apply patch.diff
 echo "lib:     $LIB"; echo "doc:     $DOC"; echo "with:    $WITH"; echo "without: $WITHOUT"
 mkdir -p /verif/seeded/$ID
 cp patch.diff /verif/seeded/$ID/patch.diff
